@@ -13,6 +13,9 @@
 #include "util/NetworkUtilityFunctions.h"
 #include "dataio/TCPSocketDataIO.h"  // to get the proper #includes for recv()'ing
 #include "system/SetupSystem.h"      // for GetCurrentThreadID()
+#ifdef MUSCLE_VERIF_HOOKS
+# include "support/VerifSimHooks.h"
+#endif
 
 #if defined(MUSCLE_USE_QT_THREADS) && defined(MUSCLE_ENABLE_QTHREAD_EVENT_LOOP_INTEGRATION)
 # include "platform/qt/QMessageTransceiverThread.h"   // for MuscleQThreadSocketNotifier
@@ -131,6 +134,9 @@ status_t Thread :: StartInternalThreadAuxAux()
    try {
 # endif
       _thread = std::thread(InternalThreadEntryFunc, this);
+#ifdef MUSCLE_VERIF_HOOKS
+      if ((g_muscleVerifSim)&&(g_muscleVerifSim->threadCreated)) g_muscleVerifSim->threadCreated(this);
+#endif
       return B_NO_ERROR;
 # if !defined(MUSCLE_NO_EXCEPTIONS)
    }
@@ -392,6 +398,9 @@ status_t Thread :: WaitForInternalThreadToExit()
 # if !defined(MUSCLE_NO_EXCEPTIONS)
       try {
 # endif
+#ifdef MUSCLE_VERIF_HOOKS
+         if ((g_muscleVerifSim)&&(g_muscleVerifSim->threadJoin)) g_muscleVerifSim->threadJoin(this);
+#endif
          _thread.join();
 # if !defined(MUSCLE_NO_EXCEPTIONS)
       }
@@ -426,6 +435,9 @@ Thread * Thread :: GetCurrentThread()
 // This method is here to 'wrap' the internal thread's virtual method call with some standard setup/tear-down code of our own
 void Thread::InternalThreadEntryAux()
 {
+#ifdef MUSCLE_VERIF_HOOKS
+   if ((g_muscleVerifSim)&&(g_muscleVerifSim->threadBegin)) g_muscleVerifSim->threadBegin(this);
+#endif
 #if defined(__linux__)
    _threadTid = syscall(SYS_gettid);  // was: gettid(), but some versions of libc didn't define that properly
 #endif
@@ -462,6 +474,9 @@ void Thread::InternalThreadEntryAux()
    }
 
    _threadStackBase = NULL;
+#ifdef MUSCLE_VERIF_HOOKS
+   if ((g_muscleVerifSim)&&(g_muscleVerifSim->threadEnd)) g_muscleVerifSim->threadEnd(this);
+#endif
 }
 
 Thread::muscle_thread_key Thread :: GetCurrentThreadKey()
